@@ -5009,6 +5009,10 @@ class DfaCompileCtx:
         if not ProgramData.do(ProgramFlag.REMOVE_INACCESIBLE_STATES):
             return 0
         accessible = set(self.dfa.dfs())
+        # targets of the start actions (e.g. the out of space handler of an initial append) are referenced from _start
+        for action in self.start_actions:
+            for subaction in action.all_subactions():
+                accessible.update(subaction.get_target_override_targets())
         mod = 0
         for i in self.dfa.states.copy():
             if i not in accessible:
